@@ -23,9 +23,75 @@ type vecCase struct {
 	Level   int    `json:"decoder_level"`
 	NilRecv bool   `json:"nil_receiver"`
 	Input   string `json:"input"`
+	// Prior: a vector that the same decoder object has decoded successfully before Input is
+	// offered to it (empty: a fresh decoder). A decoder may refuse to be used twice — the
+	// unchanged library does — and nothing is asserted then; if it accepts, the object it
+	// returns is the decoded object of an accepted vector like any other.
+	Prior string `json:"prior_vector,omitempty"`
 }
 
-func (c vecCase) key() string { return fmt.Sprintf("%d|%d|%v|%s", c.Ver, c.Level, c.NilRecv, c.Input) }
+func (c vecCase) key() string {
+	return fmt.Sprintf("%d|%d|%v|%s|%s", c.Ver, c.Level, c.NilRecv, c.Input, c.Prior)
+}
+
+var reuseAccepted, reuseRefused int64
+
+// decodeVec3 / decodeVec2 decode the case's input through a fresh decoder or, when the case
+// names a prior vector, through a decoder object that has decoded that vector before. skip:
+// the re-used decoder refused (or the prior vector could not be decoded: C07/C08's subject).
+func decodeVec3(c vecCase) (o obj3, err error, skip bool) {
+	lv := spec.Level(c.Level)
+	if c.Prior == "" {
+		o, err = decode3(lv, c.Input, c.NilRecv)
+		return o, err, false
+	}
+	p, perr := decode3(lv, c.Prior, false)
+	if perr != nil || p.isNil() {
+		return o, nil, true
+	}
+	o = obj3{level: lv}
+	switch lv {
+	case spec.Base:
+		o.B, err = p.B.Decode(c.Input)
+	case spec.Temporal:
+		o.T, err = p.T.Decode(c.Input)
+	default:
+		o.E, err = p.E.Decode(c.Input)
+	}
+	if err != nil {
+		reuseRefused++
+		return o, nil, true
+	}
+	reuseAccepted++
+	return o.refreshed(), nil, false
+}
+
+func decodeVec2(c vecCase) (o obj2, err error, skip bool) {
+	lv := spec.Level(c.Level)
+	if c.Prior == "" {
+		o, err = decode2(lv, c.Input, c.NilRecv)
+		return o, err, false
+	}
+	p, perr := decode2(lv, c.Prior, false)
+	if perr != nil || p.isNil() {
+		return o, nil, true
+	}
+	o = obj2{level: lv}
+	switch lv {
+	case spec.Base:
+		o.B, err = p.B.Decode(c.Input)
+	case spec.Temporal:
+		o.T, err = p.T.Decode(c.Input)
+	default:
+		o.E, err = p.E.Decode(c.Input)
+	}
+	if err != nil {
+		reuseRefused++
+		return o, nil, true
+	}
+	reuseAccepted++
+	return o.refreshed(), nil, false
+}
 
 // refusedDecodeNoise performs decodes that every decoder refuses, through nil receivers and
 // constructors, between two cases: fully written vectors with one late defect, so that a
@@ -70,7 +136,10 @@ var checkC09 = register("C09/vector", func(c vecCase) string {
 		if !ok {
 			return ""
 		}
-		o, err := decode3(lv, c.Input, c.NilRecv)
+		o, err, skip := decodeVec3(c)
+		if skip {
+			return ""
+		}
 		if err != nil || o.isNil() {
 			return fmt.Sprintf("accepted vector rejected: %v", err)
 		}
@@ -121,7 +190,10 @@ var checkC09 = register("C09/vector", func(c vecCase) string {
 	if !ok {
 		return ""
 	}
-	o, err := decode2(lv, c.Input, c.NilRecv)
+	o, err, skip := decodeVec2(c)
+	if skip {
+		return ""
+	}
 	if err != nil || o.isNil() {
 		return fmt.Sprintf("accepted vector rejected: %v", err)
 	}
@@ -166,7 +238,10 @@ var checkC10 = register("C10/vector", func(c vecCase) string {
 		if !ok {
 			return ""
 		}
-		o, err := decode3(lv, c.Input, c.NilRecv)
+		o, err, skip := decodeVec3(c)
+		if skip {
+			return ""
+		}
 		if err != nil || o.isNil() {
 			return fmt.Sprintf("accepted vector rejected: %v", err)
 		}
@@ -209,7 +284,10 @@ var checkC10 = register("C10/vector", func(c vecCase) string {
 	if _, ok := spec.AcceptV2(c.Input, lv); !ok {
 		return ""
 	}
-	o, err := decode2(lv, c.Input, c.NilRecv)
+	o, err, skip := decodeVec2(c)
+	if skip {
+		return ""
+	}
 	if err != nil || o.isNil() {
 		return fmt.Sprintf("accepted vector rejected: %v", err)
 	}
@@ -643,6 +721,26 @@ func vectorPropertyTest(t *testing.T, id string, check func(vecCase) string, rul
 	}
 	nviol := 0
 	i := 0
+	reuse := id == "C09" || id == "C10"
+	var priorPool3 []spec.Vec
+	if reuse {
+		r := gen.NewRng(uint64(seed)*31 + 7)
+		for k := 0; k < 64; k++ {
+			v := spec.Vec{Ver: spec.V3Versions[k%2]}
+			for _, m := range spec.V3Metrics {
+				codes := m.Codes
+				if m.Level != spec.Base {
+					codes = codes[1:]
+				}
+				v.Toks = append(v.Toks, spec.Tok{Name: m.Name, Value: codes[r.Intn(len(codes))]})
+			}
+			priorPool3 = append(priorPool3, v)
+		}
+		defer func() {
+			c.rec.AddExtraInt("reused_decoder_second_decode_accepted", reuseAccepted)
+			c.rec.AddExtraInt("reused_decoder_second_decode_refused", reuseRefused)
+		}()
+	}
 	forEachSweepVector(func(ver int, lv spec.Level, v spec.Vec, label string) {
 		i++
 		if nviol > 0 || !mine(i) || lv < minLevel {
@@ -655,6 +753,23 @@ func vectorPropertyTest(t *testing.T, id string, check func(vecCase) string, rul
 			c.rec.Sample(cs)
 		}
 		evalEnum(c, "vector", cs, check, &nviol)
+		if reuse && i%5 == 0 && nviol == 0 {
+			// the same vector offered to a decoder object that has already decoded a fully
+			// defined vector of the level (fixed, or hash-chosen values)
+			var prior spec.Vec
+			if ver == 3 {
+				prior = spec.ProjectV3(representatives(3)[4], lv)
+				if i%10 == 0 {
+					prior = gen.V3FromIdx(spec.IdxV3(priorPool3[(i/10)%len(priorPool3)]), lv, true)
+				}
+			} else {
+				prior = spec.ProjectV2(representatives(2)[4], lv)
+			}
+			cr := cs
+			cr.NilRecv, cr.Prior = false, prior.String()
+			c.rec.Case("sweeps", cr.key(), true, "reused-decoder:after-a-successful-decode")
+			evalEnum(c, "vector", cr, check, &nviol)
+		}
 	})
 	nrapid := pick(320000, 3000000)
 	if id == "C09" { // C09's cases are the most expensive (twins, related vectors) and it has the flood besides
@@ -673,6 +788,16 @@ func vectorPropertyTest(t *testing.T, id string, check func(vecCase) string, rul
 		}
 		cs := vecCase{Ver: ver, Level: int(lv), NilRecv: rapid.Bool().Draw(rt, "nilrecv"), Input: v.String()}
 		nt, cl := vecLabels(ver, v, lv)
+		if reuse && rapid.IntRange(0, 5).Draw(rt, "reused") == 0 {
+			var prior spec.Vec
+			if ver == 3 {
+				prior = gen.FullV3(lv, 85).Draw(rt, "prior")
+			} else {
+				prior = gen.Valid(2, lv).Draw(rt, "prior")
+			}
+			cs.NilRecv, cs.Prior = false, prior.String()
+			nt, cl = true, append(cl, "reused-decoder:after-a-successful-decode")
+		}
 		c.rec.Case("rapid", cs.key(), nt, append(cl, "rapid:decoder="+lv.String())...)
 		if c.rec.SampleCount() < 10 {
 			c.rec.Sample(cs)
@@ -680,6 +805,8 @@ func vectorPropertyTest(t *testing.T, id string, check func(vecCase) string, rul
 		evalCase(c, rt, "vector", cs, check)
 	})
 }
+
+const reuseRule = " Re-used decoders (C09, C10): one sweep vector in five and one rapid case in six is offered to a decoder object that has already decoded a fully (85%) defined vector of the level successfully; a decoder may refuse that (the unchanged library does: see reused_decoder_second_decode_refused / _accepted), and then nothing is asserted; if it accepts, the returned object is checked like any other decoded object."
 
 const sweepRule = "sweeps (deterministic, complete): every v3 metric x every code x every token position at every decoder covering it; all 2^14 subsets of the v3 optional metrics (values hash-chosen); every v2 metric x code in every group shape at every covering decoder; every move of a contiguous block of up to 11 tokens of a full v3 vector and all 720 orders of its six sub-groups; thorough: all 8! orders of the base tokens of 4 representative vectors. rapid: accepted vectors of both versions at a random covering decoder, constructor or nil receiver, random token order, omission and explicit X (v3), all four group shapes (v2). "
 
@@ -819,7 +946,7 @@ func c09Flood(c *ctx) {
 func TestC09(t *testing.T) {
 	extraStage = c09Flood
 	defer func() { extraStage = nil }()
-	vectorPropertyTest(t, "C09", checkC09, sweepRule+"Oracle: reference token map -> expected exported constant per field (read by reflection on the field name), unwritten optional metric = Not Defined (v3) / IsEmpty() of the group (v2); metamorphic twins (canonical order spelled out, canonical order with only defined metrics) must give an identical snapshot of fields, scores, severities and encodings at every level. Non-trivial = non-canonical presentation (v3) or at least one optional group (v2); distinct by hash of (version, decoder, receiver, input).",
+	vectorPropertyTest(t, "C09", checkC09, sweepRule+reuseRule+" Oracle: reference token map -> expected exported constant per field (read by reflection on the field name), unwritten optional metric = Not Defined (v3) / IsEmpty() of the group (v2); metamorphic twins (canonical order spelled out, canonical order with only defined metrics) must give an identical snapshot of fields, scores, severities and encodings at every level. Non-trivial = non-canonical presentation (v3) or at least one optional group (v2); distinct by hash of (version, decoder, receiver, input).",
 		[]string{"library constants bound to codes by exported name; fields read by reflection on the exported field name"}, spec.Base)
 }
 
@@ -880,7 +1007,7 @@ func c10OptionalProduct(c *ctx) {
 func TestC10(t *testing.T) {
 	extraStage = c10OptionalProduct
 	defer func() { extraStage = nil }()
-	vectorPropertyTest(t, "C10", checkC10, sweepRule+"Oracle: reference canonical encoder (v3: prefix, base in specification order, every temporal / environmental metric of the object's level spelled out; v2: byte-identical to the input); Encode() error must be nil; String() == Encode(); decoding the encoding with the same decoder gives an identical snapshot (fields, scores, severities, encodings). Non-trivial = input differs from its canonical form (v3) or carries an optional group (v2).",
+	vectorPropertyTest(t, "C10", checkC10, sweepRule+reuseRule+" Oracle: reference canonical encoder (v3: prefix, base in specification order, every temporal / environmental metric of the object's level spelled out; v2: byte-identical to the input); Encode() error must be nil; String() == Encode(); decoding the encoding with the same decoder gives an identical snapshot (fields, scores, severities, encodings). Non-trivial = input differs from its canonical form (v3) or carries an optional group (v2).",
 		[]string{"reference canonical encoder written from the property statement"}, spec.Base)
 }
 
